@@ -83,6 +83,12 @@ def tolerances(g, out, eps):
         return rot + [(3, K_EPS * eps * max(1.0, abs(out[3])))]
     tn = max(abs(v) for v in out[:3])
     tt = K_SQRT * se * max(tn, 1e-300)
+    if g == 'SE3' and math.sqrt(sum(v * v for v in out[3:6])) >= 0.05:
+        # closed-form branch of so3_Jl_inv, no scale: tau = Jl_inv(phi) t is well conditioned for every angle in [0.05, pi]
+        # (the half-angle form of the K^2 coefficient has no cancellation up to and including pi); measured on the unchanged
+        # tree <= 3 eps |tau|_inf over all angle classes, both dtypes - the sqrt(eps) band would hide a coefficient that
+        # cancels near pi (7 lost digits in float64)
+        tt = K_EPS * eps * max(tn, 1e-300)
     comps = [(i, tt) for i in range(3)] + [(3 + i, K_EPS * eps * math.pi) for i in range(3)]
     if g == 'Sim3':
         comps.append((6, K_EPS * eps * max(1.0, abs(out[6]))))
